@@ -470,6 +470,8 @@ pub trait ArchDrv<W>: Sync {
     /// `borrow(key)` then `component(_mut)` on column `col`; runs `k` while the guard is held.
     fn with_bcomp(&self, w: &W, key: Key, col: usize, mutable: bool, k: &mut dyn FnMut(Obs)) -> bool;
     fn replace_with_clone(&self, w: &mut W);
+    /// `dst.archetype.clone_from(&src.archetype)` (archetype-level `Clone::clone_from`).
+    fn clone_from_other(&self, dst: &mut W, src: &W);
     /// `Archetype::clone()` through `&self`, result dropped at once.
     fn clone_and_drop(&self, w: &W);
     fn replace_with_capacity(&self, w: &mut W, cap: usize);
@@ -763,6 +765,9 @@ where
     fn replace_with_clone(&self, w: &mut W) {
         let c = w.archetype::<A>().clone();
         *w.archetype_mut::<A>() = c;
+    }
+    fn clone_from_other(&self, dst: &mut W, src: &W) {
+        dst.archetype_mut::<A>().clone_from(src.archetype::<A>());
     }
     fn clone_and_drop(&self, w: &W) {
         let c = w.archetype::<A>().clone();
